@@ -1,7 +1,9 @@
 """C15 - CRC.  MC: width-8 CRCs for reflected polynomials (table = bitwise, backward o forward = id), CRC-32 forging
 postcondition (MC_Crc).  Bind: crc32 on classes and random data, generic table-driven CRC for widths 8..64 with
 random reflected polynomials and init/final values, backward computation, crc32_fix / crc32_fix_pos at every
-position with target classes - TLC recomputes CRCs bitwise and evaluates the forging postconditions."""
+position with target classes - TLC recomputes CRCs bitwise and evaluates the forging postconditions.  Inputs of 4 KiB ..
+1.5 MiB are recorded run-length encoded and judged with Crc!CrcRegRuns (the byte step as an affine map, powers by squaring;
+MC_Crc proves it equal to the bytewise evaluation on small cases)."""
 import core
 from core import B, limbs
 
@@ -75,16 +77,16 @@ def run(ctx):
         d = rb(10 + q); pos = q % (len(d) - 3)
         patch = bytes([rnd.randrange(256), rnd.randrange(256), [0, rnd.randrange(256)][q % 2], 0])
         want = d[:pos] + patch + d[pos + 4:]; t = zlib.crc32(want)
-        rec(dict(op='fix', data=B(d), pos=pos, target=W(t, 2)), lambda d=d, t=t, pos=pos: C.crc32_fix_pos(d, pos, t), lambda r: B(r)); ctx.mark(('fixzero', q))
+        rec(dict(op='fix', data=B(d), pos=pos, target=W(t, 2)), lambda d=d, t=t, pos=pos: C.crc32_fix_pos(d, pos, t), lambda r: core.SB(r)); ctx.mark(('fixzero', q))
         d2 = d[:-4]; want2 = d2 + patch[::-1]; t2 = zlib.crc32(want2 + b'')
-        rec(dict(op='fix', data=B(d2 + b'abcd'), pos=len(d2), target=W(zlib.crc32(d2 + patch), 2)), lambda d2=d2, patch=patch: C.crc32_fix(d2 + b'abcd', zlib.crc32(d2 + patch)), lambda r: B(r))
+        rec(dict(op='fix', data=B(d2 + b'abcd'), pos=len(d2), target=W(zlib.crc32(d2 + patch), 2)), lambda d2=d2, patch=patch: C.crc32_fix(d2 + b'abcd', zlib.crc32(d2 + patch)), lambda r: core.SB(r))
     # prefixes that leave the running register at 0 / at all ones (crc32 of the prefix = 0xffffffff / 0) right where the patch goes
     for q in range(4 if big else 2):
         pre = rb(3 * q); reg = zlib.crc32(pre) ^ 0xffffffff
         for want_reg in (0, 0xffffffff):
             pre2 = pre + (reg ^ want_reg).to_bytes(4, 'little')              # four bytes that steer the register to want_reg
             d = pre2 + rb(4) + rb(q + 1); t = rnd.getrandbits(32)
-            rec(dict(op='fix', data=B(d), pos=len(pre2), target=W(t, 2)), lambda d=d, t=t, p=len(pre2): C.crc32_fix_pos(d, p, t), lambda r: B(r)); ctx.mark(('fix-register', want_reg, q))
+            rec(dict(op='fix', data=B(d), pos=len(pre2), target=W(t, 2)), lambda d=d, t=t, p=len(pre2): C.crc32_fix_pos(d, p, t), lambda r: core.SB(r)); ctx.mark(('fix-register', want_reg, q))
             rec(dict(op='crc32', data=B(pre2)), lambda x=pre2: C.crc32(x), lambda r: W(r, 2))
             rec(dict(op='back', P=W(0xEDB88320, 2), init=W(0xffffffff, 2), data=B(d), pos=len(pre2), width=32), lambda d=d, p=len(pre2): C.crc32_back_pos(d, p, C.crc32(d)), lambda r: W(r, 2))
     for d in (rb(8), rb(21)):
@@ -94,12 +96,51 @@ def run(ctx):
     targets = [0, 1, 1 << 31, 0xffffffff, 0xdeadbeef] + [rnd.getrandbits(32) for _ in range(6 if big else 1)]
     for d in [rb(4), rb(5), rb(8), rb(13)] + ([rb(n) for n in (6, 7, 16, 40)] if big else []):
         for t in targets:
-            rec(dict(op='fix', data=B(d), pos=len(d) - 4, target=W(t, 2)), lambda d=d, t=t: C.crc32_fix(d, t), lambda r: B(r)); ctx.mark(('fix', len(d), t))
+            rec(dict(op='fix', data=B(d), pos=len(d) - 4, target=W(t, 2)), lambda d=d, t=t: C.crc32_fix(d, t), lambda r: core.SB(r)); ctx.mark(('fix', len(d), t))
             for pos in range(0, len(d) - 3):
-                rec(dict(op='fix', data=B(d), pos=pos, target=W(t, 2)), lambda d=d, t=t, pos=pos: C.crc32_fix_pos(d, pos, t), lambda r: B(r)); ctx.mark(('fixpos', len(d), pos, t))
+                rec(dict(op='fix', data=B(d), pos=pos, target=W(t, 2)), lambda d=d, t=t, pos=pos: C.crc32_fix_pos(d, pos, t), lambda r: core.SB(r)); ctx.mark(('fixpos', len(d), pos, t))
     for d, t in ((rb(9), 305419896), (rb(6), 0xdeadbeef), (rb(12), 10)):                                # targets given as text (decimal, 0x-prefixed): the API parses them with int(target, 0)
         for form in (str(t), hex(t)):
-            rec(dict(op='fix', data=B(d), pos=len(d) - 4, target=W(t, 2)), lambda d=d, form=form: C.crc32_fix(d, form), lambda r: B(r)); ctx.mark(('fix text target', form))
+            rec(dict(op='fix', data=B(d), pos=len(d) - 4, target=W(t, 2)), lambda d=d, form=form: C.crc32_fix(d, form), lambda r: core.SB(r)); ctx.mark(('fix text target', form))
+    # ---- long inputs (beyond what TLC can take byte by byte): run-length encoded, judged by Crc!CrcRegRuns (affine powers) ----
+    def rle(b):
+        out = []; i = 0; n = len(b)
+        while i < n:
+            j = i
+            while j < n and b[j] == b[i]: j += 1
+            out.append([b[i], j - i]); i = j
+        return out
+    def longdata(total):
+        """mostly long runs with a few short literal stretches, exact total length"""
+        parts = []; left = total
+        while left > 0:
+            kind = rnd.randrange(3)
+            n = min(left, rnd.randrange(1, 9) if kind == 0 else rnd.randrange(200, max(201, total // 3)))
+            parts.append(rb(n) if kind == 0 else bytes([rnd.choice((0, 0, 255, 128, rnd.randrange(256)))]) * n); left -= n
+        return b''.join(parts)
+    sizes = [4097, 5000, 65535, 65537, (1 << 20) + 5] + ([(1 << 20) - 1, 1 << 20, 3 * (1 << 19) + 7, 100003] if big else [])
+    for n in sizes:
+        d = longdata(n)
+        rec(dict(op='crc32r', runs=rle(d), datalen=n), lambda d=d: C.crc32(d), lambda r: W(r, 2)); ctx.mark(('crc32 long', n))
+    for width, P, n in ((16, 0xA001, 70001), (64, 0xC96C5795D7870F42, 9000), (8, 0x8C, 4099), (33, rnd.getrandbits(33) | (1 << 32), 12345)):
+        nl = (width + 15) // 16
+        try: tab = C.crc_table(Bits(P, width))
+        except Exception as ex: ctx.violation('crc.crc_table', 'raises:' + type(ex).__name__, dict(width=width), dict(P=hex(P))); continue
+        d = longdata(n); init = (1 << width) - 1; final = rnd.getrandbits(width)
+        rec(dict(op='crcr', P=W(P, nl), init=W(init, nl), final=W(final, nl), runs=rle(d), width=width, datalen=n), lambda d=d, tab=tab, init=init, final=final: C.crc(d, tab, init, final), lambda r, nl=nl: W(r, nl)); ctx.mark(('crc long', width, n))
+    def fixr(d, pos, t, fn):
+        def render(r):
+            if type(r) is not bytes: return dict(olen=-1, ohead=[], owin=[], otail=[])          # strict: the result must BE bytes
+            return dict(olen=len(r), ohead=rle(r[:pos]), owin=list(r[pos:pos + 4]), otail=rle(r[pos + 4:]))
+        e = dict(op='fixr', dlen=len(d), datalen=len(d), pos=pos, dhead=rle(d[:pos]), dtail=rle(d[pos + 4:]), target=W(t, 2), raised='', olen=-1, ohead=[], owin=[], otail=[], obs=[])
+        try: e.update(render(fn()))
+        except Exception as ex: e['raised'] = type(ex).__name__
+        ev.append(e)
+    for n in [4100, 65536 + 9, (1 << 20) + 3] + ([(1 << 20), 200000] if big else []):
+        d = longdata(n); t = rnd.getrandbits(32)
+        fixr(d, n - 4, t, lambda d=d, t=t: C.crc32_fix(d, t)); ctx.mark(('fix long', n))
+        for pos in sorted({0, n // 2, n - 4} if n < (1 << 20) or big else {n // 3}):
+            fixr(d, pos, t ^ pos, lambda d=d, t=t, pos=pos: C.crc32_fix_pos(d, pos, t ^ pos)); ctx.mark(('fixpos long', n, pos))
     ctx.exhaustive_subspaces.append('crc32_fix_pos at every position of the short data strings x target classes {0, 1, 2^31, 2^32-1, ...}')
     ctx.evaluations = len(ev); ctx.sample(ev[5]); ctx.sample(ev[-1])
     traces = [dict(ev=ev[i:i + 10]) for i in range(0, len(ev), 10)]
@@ -108,7 +149,7 @@ def run(ctx):
         for r in recs:
             e = traces[tid - 1]['ev'][r['step'] - 1]
             for cl in r['bad']:
-                attrs = dict(op=e['op'], clause=cl['c'], raised=e['raised'], width=e.get('width', 32), datalen=len(e['data']), pos=e.get('pos', -1))
+                attrs = dict(op=e['op'], clause=cl['c'], raised=e['raised'], width=e.get('width', 32), datalen=e['datalen'] if 'datalen' in e else len(e['data']), pos=e.get('pos', -1))
                 ctx.violation('crc.' + e['op'], ('raises:' + e['raised']) if cl['c'] == 'must-not-raise' else 'wrong:' + cl['c'], attrs, dict(event=e, expected=cl['e']))
     clean = dict(ev=[ev[3]])
     def corrupt(t): t['ev'][0]['obs'][0] ^= 1; return t
